@@ -116,7 +116,7 @@ def build_driver():
 NAMES = ["a", "b", "c", "x", "l", "p", "s"]
 C17_CLAUSES = ["close-releases-all", "watchlist-user-only", "removed-not-listed", "remove-of-added-fails",
                "deleted-file-descriptor-open", "all-removed-empty", "unaccounted-descriptor", "remove-of-unadded-succeeds"]
-C18_CLAUSES = ["names-user-spelling", "preexisting-silent", "create-once", "create-missed", "recreate", "remove-missed", "change-missed"]
+C18_CLAUSES = ["reader-blocked", "names-user-spelling", "preexisting-silent", "create-once", "create-missed", "recreate", "remove-missed", "change-missed"]
 
 
 def pclean(p):
@@ -396,6 +396,11 @@ CORPUS = [
     ("k-dangling-entry", ["fs mkdir d", "api add d", "hold", "fs symlink nowhere d/a", "fs create d/b", "release", "fs create d/c"]),
     ("k-symlink-entry-rm", ["fs mkdir d", "fs create d/f", "fs symlink f d/l", "api add d", "fs unlink d/l"]),
     ("k-failed-add", ["fs mkdir d", "fs create d/a", "fs symlink nowhere d/z", "api add d"]),
+    ("k-file-overwritten", ["fs create a", "api add a", "fs create b", "fs rename b a"]),
+    ("k-entry-user-removed", ["fs mkdir d", "fs create d/a", "api add d", "api add d/a", "api remove d/a", "fs write d/a"]),
+    ("k-remove-unadded", ["fs mkdir d", "api add d", "fs create d/x", "api remove d/x"]),
+    ("k-burst-rename-recreate", ["fs mkdir d", "fs create d/l", "api add d", "hold", "fs rename d/l d/c", "fs create d/l", "release"]),
+    ("k-fifo-replaces-symlinked-dir", ["fs mkdir d", "fs symlink /T/d l", "api add l", "fs mkfifo p", "fs rename p l", "fs create d/x"]),
     ("p-plain", ["fs mkdir d", "fs create d/pre", "api add d", "fs create d/a", "fs write d/a", "fs chmod d/a", "fs rename d/a d/b",
                  "fs unlink d/b", "fs create d/b", "fs mkdir d/s", "fs rmdir d/s", "api list", "api remove d", "api list"]),
     ("p-burst", ["fs mkdir d", "api add d", "hold", "fs create d/a", "fs create d/b", "fs create d/c", "fs unlink d/b", "release",
@@ -426,7 +431,9 @@ def run_pipeline(kqh, drv, hists, name, timeout=900):
     rc, out = sh("timeout %d %s -hist %s > %s" % (timeout, kqh, hp, op), timeout=timeout + 30)
     if rc != 0:
         return {"error": "harness rc=%d %s" % (rc, out[-1500:]), "obs": op}
-    rc, dout = sh("timeout %d %s %s" % (timeout, drv, op), timeout=timeout + 30)
+    # VERIF_KQ_CFG=fixed replays against the model with the three repair flags on (used to validate proposed patches)
+    cfgopt = "-cfg fixed " if os.environ.get("VERIF_KQ_CFG") == "fixed" else ""
+    rc, dout = sh("timeout %d %s %s%s" % (timeout, drv, cfgopt, op), timeout=timeout + 30)
     res = {"obs": op, "model": [], "env": [], "spec": [], "summary": "", "diverging": set(), "error": None}
     if rc != 0 and "SUMMARY" not in dout:
         res["error"] = "driver rc=%d %s" % (rc, dout[-1500:])
@@ -719,6 +726,7 @@ WHAT = {
     "watched-file-overwritten": "when a watched file is replaced by rename the watcher re-watches the new file internally: WatchList no longer shows it but the descriptor and table entries remain",
     "remove-of-unadded-succeeds": "Remove succeeds on a per-entry watch the user never added (documented: ErrNonExistentWatch) and silently stops the reporting for that entry",
     "entry-user-removed": "Remove of a user-added entry of a watched directory removes the one shared watch: the directory stops reporting that entry's changes and reports Create for it again",
+    "reader-blocked:plain": "the reader goroutine blocks forever",
     "rename-then-recreate-in-burst": "a name renamed away and created again before the reader runs gets no Create until the directory changes again (only NOTE_DELETE, not NOTE_RENAME, triggers the re-scan of the name)",
 }
 
